@@ -31,7 +31,7 @@ use super::c11::conn_error;
 use super::c11s::{endpoint, Endpoint, Wiring, P6};
 use crate::common::{catch, Opts, Rng, Sink};
 
-pub const NWAKERS: usize = 4;
+pub const NWAKERS: usize = 6;
 
 struct Wk {
     id: usize,
